@@ -117,19 +117,19 @@ Qed.
 
 (* ----------------------------------------------------------------- lookup *)
 Definition tab_wf (h : N -> sym) (t : table) : Prop :=
-  NoDup (keys t) /\ Forall (fun e => fst e = sname (h (snd e))) t.
+  NoDup (keys t) /\ Forall (fun e => fst e = norm (sname (h (snd e)))) t.
 (* an imported symbol's container symbol is declared in the same table (what the frontend builds) *)
 Definition imports_local (h : N -> sym) (t : table) : Prop :=
   forall s c, In s (syms t) -> sintf (h s) = IImport c -> In c (syms t).
 
 Lemma lookup_deep_copy : forall h soff t s,
   tab_wf h t -> In s (syms t) ->
-  lookup (sname (h s)) (deep_copy_table h soff t) = Some (s + soff).
+  lookup (norm (sname (h s))) (deep_copy_table h soff t) = Some (s + soff).
 Proof.
   intros h soff t. induction t as [|[k s0] r IH]; intros s [Hnd Hk] Hs; simpl in *; [contradiction|].
   unfold lookup. simpl.
   inversion Hnd as [|? ? Hnotin Hnd']; subst. inversion Hk as [|? ? Hk0 Hk']; subst. simpl in Hk0.
-  destruct (sname (h s0) =? sname (h s)) eqn:E.
+  destruct (norm (sname (h s0)) =? norm (sname (h s))) eqn:E.
   - destruct Hs as [Hs|Hs]; [subst; reflexivity|]. exfalso. apply N.eqb_eq in E.
     apply Hnotin. unfold syms in Hs. apply in_map_iff in Hs as [e [E1 He]].
     unfold keys. apply in_map_iff. exists e. split; [|exact He].
